@@ -13,13 +13,14 @@ from gencases import BuilderGen, PolicyGen, parse_header, OPS, M32, M64
 class Stream:
     """Runs case lines through the real code (harness compile) and the extracted model/specification (driver)."""
 
-    def __init__(self, ctx):
+    def __init__(self, ctx, harness=None):
         self.ctx = ctx
         self.header = None
         self.raw_verdicts = {}
+        self.harness = harness      # None: the host build
 
     def load_header(self):
-        r = self.ctx.run_harness(["compile"], "")
+        r = self.ctx.run_harness(["compile"], "", harness=self.harness)
         if r.returncode != 0:
             raise RuntimeError("harness compile failed: " + r.stderr[-2000:])
         self.header = r.stdout
@@ -29,7 +30,7 @@ class Stream:
         """lines: list of case lines (B/P followed by their V lines). Returns (cases, summary) where cases maps
         id -> dict(line=annotated line, corr='same'|'DIFF', model=..., go=..., events=[(idx, ok, want, got, vline)])."""
         inp = "\n".join(lines) + "\n"
-        r = self.ctx.run_harness(["compile"], inp)
+        r = self.ctx.run_harness(["compile"], inp, harness=self.harness)
         if r.returncode != 0:
             raise RuntimeError("harness compile failed: " + r.stderr[-2000:])
         annotated = r.stdout
@@ -234,15 +235,15 @@ CHECKS = {"C06": check_C06}
 
 # ------------------------------------------------------------------------------------------------ policy streams
 def policy_stream(ctx, prop, kinds, npol, nev, arches=None, defects=None, le_choices=(0, 1), replay=None,
-                  defect_share=0.0, foreign_share=0.15, extra_cases=None, x32_share=0.0):
+                  defect_share=0.0, foreign_share=0.15, extra_cases=None, x32_share=0.0, goarch=None, salt=0):
     """Generate policies of the given kinds, compile them with the implementation and the model, and run the
     implementation's programs on partition events against the specification. Returns dict with results."""
-    rng = random.Random(ctx.seed * 1000003 + int(prop[1:]))
-    h, err = ctx.build_harness()
+    rng = random.Random(ctx.seed * 1000003 + int(prop[1:]) + salt)
+    h, err = ctx.build_harness(goarch=goarch)
     if not h:
-        ctx.violation("broken-obligation", dict(what="the harness does not build against the repository", log=err[-3000:]), False)
+        ctx.violation("broken-obligation", dict(what="the harness does not build against the repository" + (" for GOARCH=%s" % goarch if goarch else ""), log=err[-3000:]), False)
         return None
-    st = Stream(ctx)
+    st = Stream(ctx, harness=h if goarch else None)
     consts, arches_tbl = st.load_header()
     pg = PolicyGen(rng, consts, arches_tbl)
     lines = []
@@ -339,6 +340,29 @@ def check_C02(ctx, replay=None):
                       ["single_cond"],
                       "one group / one conditional entry / one condition: 8 operations x 6 argument indices x boundary and random 64-bit operands x both byte orders x four tables, compiled by the implementation and the extracted model (instruction-exact comparison); every program run on events whose argument is the operand, operand +-1, +-2^32, with high/low halves swapped or equal, all-ones, 0 and random, against the extracted decide (i.e. rel); non-trivial = accepted policy with events evaluated",
                       replay=replay, npol=(500, 8000), nev=(40, 80), foreign_share=0.03)
+    # the same stream through a 32-bit build of the library (GOARCH=386 binaries run on this host): the word offsets of
+    # seccomp_data must not depend on the width of the build's machine word
+    if not replay or replay.get("goarch") == "386":
+        res = policy_stream(ctx, "C02", ["single_cond", "single_cond", "cond"], 150 if ctx.tier == "quick" else 2000, 30, goarch="386", salt=386,
+                            foreign_share=0.03, replay=replay if replay and replay.get("goarch") == "386" else None)
+        if res is not None:
+            for c in res["cases"].values():
+                c["line"] = c["line"]
+            before = len(ctx.violations)
+            ndiff, nbad = report_case_failures(ctx, res["cases"], "single-condition policies compiled by a GOARCH=386 build (C02)",
+                                               describe=lambda cid: dict(res["meta"].get(cid) or {}, goarch="386"))
+            for path, _ in ctx.violations[before:]:
+                with open(path) as f:
+                    body = json.load(f)
+                body["goarch"] = "386"
+                with open(path, "w") as f:
+                    json.dump(body, f, indent=1, sort_keys=True)
+                    f.write("\n")
+            ctx.coverage["programs_386_build"] = int(res["summary"]["cases"])
+            ctx.coverage["events_386_build"] = int(res["summary"]["events"])
+            ctx.coverage["evaluations"] = ctx.coverage.get("evaluations", 0) + int(res["summary"]["cases"]) + int(res["summary"]["events"])
+            ctx.coverage["counterexamples"] = ctx.coverage.get("counterexamples", 0) + nbad
+            ctx.coverage["correspondence_differences"] = ctx.coverage.get("correspondence_differences", 0) + ndiff
 
 
 # ------------------------------------------------------------------------------------------------ C03
